@@ -12,6 +12,8 @@ def main():
     for crate, cfgs, rel in HARNESSES:
         if os.path.isdir(os.path.join(C.VERIF, "harness", crate)):
             C.build_rust(crate, cfgs, release=rel)
+    from . import c05
+    c05.build_conc_harness()          # wh with --cfg walrus_verif_conc (scheduling-point hook)
     print("setup ok")
     return 0
 
